@@ -281,3 +281,18 @@ pub fn ctr_seekpast_b4w2_n2() {
     let r2 = s.try_apply_keystream(&mut buf);
     assert!(r1.is_err() || r2.is_err(), "seek past the keystream limit and a data call both succeeded: keystream block 0 is reused");
 }
+
+// larger instances that reach the parallel keystream path (>= width whole blocks in one call after the
+// partial block is flushed); native search / replay only (too heavy for CBMC)
+log_cipher!(L4w2b, U4, 4, U2, 12);
+log_cipher!(L8w3b, U8, 8, U3, 12);
+log_cipher!(L16w2b, U16, 16, U2, 8);
+log_cipher!(L16w4b, U16, 16, U4, 12);
+ctr_harness!(ctr_32be_b4w2_n8_nat, 40, L4w2b, 4, 4, true, 30, 3, ctr::Ctr32BE<&L4w2b>);
+ctr_harness!(ctr_32le_b8w3_n8_nat, 80, L8w3b, 8, 4, false, 70, 5, ctr::Ctr32LE<&L8w3b>);
+ctr_harness!(ctr_64be_b8w3_n8_nat, 80, L8w3b, 8, 8, true, 70, 5, ctr::Ctr64BE<&L8w3b>);
+ctr_harness!(ctr_64le_b16w2_n6_nat, 100, L16w2b, 16, 8, false, 90, 7, ctr::Ctr64LE<&L16w2b>);
+ctr_harness!(ctr_128be_b16w2_n6_nat, 100, L16w2b, 16, 16, true, 90, 7, ctr::Ctr128BE<&L16w2b>);
+ctr_harness!(ctr_128le_b16w4_n9_nat, 160, L16w4b, 16, 16, false, 150, 7, ctr::Ctr128LE<&L16w4b>);
+belt_harness!(belt_ks_b16w2_n6_nat, 100, L16w2b, 90, 7);
+belt_harness!(belt_ks_b16w4_n9_nat, 160, L16w4b, 150, 5);
